@@ -793,7 +793,8 @@ func TypeHasNullOption(node Type) bool {
 	Visit(node, func(self Visitor, node Node) {
 		switch node := node.(type) {
 		case *GeneralizedType:
-			if node.Cases.HasNullOption() {
+			// a vector, array or map whose items can be null is not itself nullable
+			if node.Dimensionality == nil && node.Cases.HasNullOption() {
 				hasNull = true
 			}
 			return
